@@ -41,7 +41,7 @@ sim("C10", "oracle: per-key Wing-Gong linearizability search over acknowledged w
     "stateful scenario generation, linearizability checker (per-key Wing-Gong search) as oracle")
 sim("C11", "oracle: every successful read under the linearizable policy must fit the per-key linearizability search together with the writes; scenarios biased to isolated leaders, apply lag, late acknowledgements.",
     "stateful scenario generation, linearizability checker as oracle")
-sim("C12", "oracle: (a) with the simulator's perfect clock a LeaseRead answered by a node after another node established a higher term is a violation, (b) lease reads must fit the linearizability search. The configuration clause of C12 is decided by C34.",
+sim("C12", "oracle: (a) with the simulator's perfect clock a LeaseRead answered by a node after another node established a higher term is a violation, The configuration clause of C12 (validation rejects every lease window not shorter than the minimum election timeout, for every read configuration) is decided by an auxiliary engine (evidence C12.config.json): generated numeric + read-policy configurations against RaftConfig::validate with an exact u128 oracle.",
     "stateful scenario generation under a virtual clock, deposed-leader + linearizability oracles",
     "Only the Raft-loop lease path is driven; the lock-free fast-path readers use the same ReadLease object but their thread-level races are out of reach.")
 sim("C14", "oracle: a write answered with a definite rejection (not leader / backpressure / invalid) is never found in any node's committed log or applied state.",
@@ -132,7 +132,7 @@ add("C13", "dverif", "exploration",
     "Real time: a case whose leader changes or that meets timeouts gives no verdict. Roles = stable leader / stable follower (deposed-leader windows are C12's, on the simulator).",
     PBT + "generated (role, path, policy, config) combinations on real clusters against a routing-table oracle")
 
-sim("C33", "snapshots enabled (threshold 1..30, retained 1..3), write bursts, lagging/cut-off/crashed followers below the leader's purge boundary, leader and full-cluster restarts; oracle: (a) at every step each node's purge boundary <= highest committed index and <= last_included of the snapshot it holds, (b) committed entries are not lost by compaction, (c) bounded liveness: after the faults stop a probe write succeeds and every live voter applies it within 100 x election_timeout_max — by log or by snapshot, (d) final state of every node == reference model over the committed prefix (snapshot installs included).",
+sim("C33", "snapshots enabled (threshold 1..30, retained 1..3), write bursts, lagging/cut-off/crashed followers below the leader's purge boundary, leader and full-cluster restarts; oracle: (a) at every step each node's purge boundary <= highest committed index and <= last_included of the snapshot it holds, (b) committed entries are not lost by compaction, (c) bounded liveness: after the faults stop a probe write succeeds and every live voter applies it within 100 x election_timeout_max — by log or by snapshot, (d) final state of every node == reference model over the committed prefix (snapshot installs included). Auxiliary engine (evidence C33.engines.json): real File and RocksDB state machines + real snapshot handler: a node that installed a snapshot (after applying a prefix of its own) is restarted; it must still know the snapshot it holds.",
     "stateful scenario generation with snapshots/purge, purge-boundary invariants + bounded catch-up + model-state oracle",
     "The simulated state machine and log store persist snapshot metadata / purge boundary correctly; persistence of these by the File/RocksDB engines is decided by C15/C16/C18/C20.")
 
